@@ -111,10 +111,12 @@ def run(ctx):
     games += lt[::2] if ctx.quick else lt
     games += gen_games.pattern_games3(2 if ctx.quick else 3)      # successors that are barely alive (1e-7): they stay permitted
     games += gen_games.extra_families(ctx.rng, games, 12 if ctx.quick else 150)
+    games += gen_games.offset_tie_games()
     recs = sc.run_games(ctx, games, limit=10, tag="c05")
     sc.correspondence(ctx, recs, "cmp_final", "c05")
     sc.padding_check(ctx, recs, ("final",), 40 if ctx.quick else 400, "c05")
     sc.loglevel_check(ctx, recs, ("final",), 25 if ctx.quick else 250, "c05")
+    sc.optimize_check(ctx, recs, ("final",), 25 if ctx.quick else 250, "c05")
     sc.resolve_check(ctx, recs, ("final",), 30 if ctx.quick else 300, "c05")
     sc.late_edit_check(ctx, recs, ("final",), 20 if ctx.quick else 200, "c05")
     check(ctx, recs)
